@@ -1,13 +1,13 @@
 SPECIFICATION MCSpec
 CONSTANTS
-  U = 5
-  MaxOps = 22
+  U = 7
+  MaxOps = 24
   FailCs = {}
-  FailNs = {1}
-  PruneTs = {0, 150, 350}
-  RgsSnaps = {}
+  FailNs = {}
+  PruneTs = {275}
+  RgsSnaps = {1, 2}
   ResolveCs = {}
-  WithReload = TRUE
+  WithReload = FALSE
 CONSTRAINT Bound
 VIEW View
 INVARIANT OnlyAuthentic
